@@ -1,13 +1,11 @@
-// Package c05 is the correspondence harness for property C05 (placeholder).
+// Package c05 is the correspondence harness for property C05; the machinery is shared
+// with the other response-merging properties (package merge).
 package c05
 
 import (
-	"errors"
-
 	"verifh/internal/hx"
 	"verifh/internal/lineio"
+	"verifh/merge"
 )
 
-func Run(o *hx.Opts, w *lineio.Writer) error {
-	return errors.New("C05 harness not implemented")
-}
+func Run(o *hx.Opts, w *lineio.Writer) error { return merge.Run(o, w, 5) }
